@@ -36,6 +36,11 @@ class Counting:
 
 
 def family(fam, n, tok, seed):
+    base, _, scale = fam.partition("@")  # "@tiny" / "@huge": the same operator family at scale 2^-45 / 2^40
+    if scale:
+        M, V, lam = family(base, n, tok, seed)
+        f = {"tiny": 2.0**-45, "huge": 2.0**40}[scale]
+        return M * f, V, (None if lam is None else lam * f)
     c = P.is_cplx(tok)
     if fam == "int":
         M = P.dense(seed, (n, n), tok, "wc").astype(np.complex128 if c else np.float64)
@@ -186,7 +191,7 @@ def cases(tier, seed):
                     for tol in tols:
                         for entry in ("gmres", "inv"):
                             out.append(["int", n, tok, bk, x0k, tol, entry, ms])
-    fams = [("normal", "c16"), ("nonnormal", "f8"), ("nonnormal", "c16")]
+    fams = [("normal", "c16"), ("nonnormal", "f8"), ("nonnormal", "c16"), ("nonnormal@tiny", "f8"), ("normal@huge", "c16")]
     for fam, tok in fams:
         for n in ([3, 5] + big):
             ms = list(range(1, n + 4)) if n <= 8 else sorted({1, 2, 5, 10, 25, n, n + 5})
@@ -208,7 +213,7 @@ def case_signature(case):
 def describe(tier, seed):
     return {
         "bound": "operators: integer nonsingular n=1..6 (real: exact rational optimum; complex), complex normal, real / complex "
-                 "non-normal with prescribed eigenvectors, n in " + str(_DESC.get("sizes")) + "; right-hand sides: 1 column, 3 columns "
+                 "non-normal with prescribed eigenvectors (also at scale 2^-45 and 2^40), n in " + str(_DESC.get("sizes")) + "; right-hand sides: 1 column, 3 columns "
                  "(norms 1e-3, 1, 1e3), e1, eigenvector, minimal-polynomial degree 2 and 3, a zero column among non-zero ones, a heterogeneous batch (eigenvector + generic); x0 in {none, random}; every m in 1..n+3 "
                  "(n<=8) / {1,2,5,10,25,n,n+5}; tol in {1e-12, 1e-6}; entry points gmres() and inv(A, GMRES()) @ b",
         "alphabet": _DESC,
